@@ -476,7 +476,17 @@ class Unit:
                 else:
                     parts.append('(anonymous namespace)')
             elif k in RECORD_KINDS or k == 'EnumDecl':
-                nm = cur.get('name') or ('(anonymous at %s:%s)' % (os.path.basename(cur.get('_file') or '?'), cur.get('_line')))
+                nm = cur.get('name')
+                if not nm and cur is not n and k != 'EnumDecl' and not cur.get('definitionData', {}).get('isLambda'):
+                    # clang does not print enclosing anonymous structs/unions in qualified names
+                    nxt = cur.get('_parent')
+                    cur = nxt
+                    continue
+                if not nm:
+                    loc = cur.get('loc', {})
+                    if 'expansionLoc' in loc:
+                        loc = loc['expansionLoc']
+                    nm = '(anonymous %s at %s:%s:%s)' % (cur.get('tagUsed', 'struct'), cur.get('_file'), cur.get('_line'), loc.get('col'))
                 if k == 'ClassTemplateSpecializationDecl':
                     nm += self._targs_text(cur)
                 parts.append(nm)
@@ -599,6 +609,16 @@ class Unit:
                 return self.resolve(parse_type(self._decl_type_str(td)), td)
             if name in self.cfg.scalar_records:
                 return ('b', self.cfg.scalar_records[name])
+            if not getattr(self, '_in_canon', False):
+                alt = self._canon_name(name)
+                if alt != name:
+                    self._in_canon = True
+                    try:
+                        r = self.resolve(('named', alt), ctx)
+                    finally:
+                        self._in_canon = False
+                    if r != ('rec', alt) or alt in self.records:
+                        return r
             # a record we only know by name (outside babylon or incomplete): opaque
             return ('rec', name)
         if k in ('ptr', 'ref', 'rref', 'atomic'):
@@ -608,6 +628,33 @@ class Unit:
         if k == 'fn':
             return ('fn', self.resolve(ty[1], ctx), [self.resolve(p, ctx) for p in ty[2]], ty[3])
         return ty
+
+    CANON_BUILTIN = {'uint8_t': 'unsigned char', 'uint16_t': 'unsigned short', 'uint32_t': 'unsigned int', 'uint64_t': 'unsigned long',
+                     'int8_t': 'signed char', 'int16_t': 'short', 'int32_t': 'int', 'int64_t': 'long', 'size_t': 'unsigned long',
+                     'ssize_t': 'long', 'uintptr_t': 'unsigned long', 'intptr_t': 'long', 'ptrdiff_t': 'long'}
+
+    def _canon_name(self, name):
+        """second-chance spelling: typedef names inside template arguments replaced by their builtin spelling, and a
+        name written inside namespace babylon tried with the namespace in front"""
+        toks = tokenize(name)
+        out = []
+        depth = 0
+        for i, t in enumerate(toks):
+            if t == '<':
+                depth += 1
+            elif t == '>':
+                depth -= 1
+            if depth > 0 and t in self.CANON_BUILTIN and (i == 0 or toks[i - 1] != '::' or (i >= 2 and toks[i - 2] == 'std')):
+                if i >= 2 and toks[i - 1] == '::' and toks[i - 2] == 'std':
+                    out = out[:-2]
+                out.append(self.CANON_BUILTIN[t])
+            else:
+                out.append(t)
+        alt = norm_name(' '.join(out))
+        for cand in (alt, 'babylon::' + alt):
+            if cand in self.records or cand in self.typedefs or cand in self.enums or self._fuzzy_record(cand) is not None:
+                return cand
+        return alt
 
     def _fuzzy_record(self, name, table=None, cache='_fuzzy_cache'):
         """clang prints `Futex<S>` where the specialization is declared as `Futex<S, void>` (defaulted
